@@ -64,8 +64,14 @@ func (g *c01Gen) stringMap(ind, key string, sb *strings.Builder, what string, al
 		case g.bad(16, what+":metric-name-label"):
 			k = "__name__"
 		case g.bad(16, what+":duplicate-key"):
-			sb.WriteString(ind + "  dup: x\n")
+			// either occurrence may be null
+			sb.WriteString(ind + "  dup: " + hx.Pick(g.rr, []string{"x", "x", "~", ""}) + "\n")
 			k = "dup"
+			if g.rr.Intn(3) == 0 {
+				v = hx.Pick(g.rr, []string{"~", ""})
+			}
+		case g.rr.Intn(25) == 0:
+			v = hx.Pick(g.rr, []string{"~", ""}) // a null value is fine for both loaders
 		case g.bad(16, what+":non-string-value"):
 			v = hx.Pick(g.rr, []string{"1", "true", "1.5", "[a]", "{a: b}", "~"})
 		case allowTemplates && g.bad(10, what+":bad-template"):
